@@ -14,7 +14,7 @@ inductive Step (c : Cfg) (s : Sys D) (now : Nat) : Sys D → Prop
   | net (cuts : List (List (Nat × Nat))) : Step c s now { s with now := now, cuts := cuts }
   | drop (m : Msg) (hm : m ∈ s.soup) (hc : s.isCrashed m.dst = true) :
       Step c s now { s with now := now, soup := s.soup.erase m }
-  | tick (a : Nat) (shuf : List Nat) (ha : s.isCrashed a = false) :
+  | tick (a : Nat) (shuf : List Nat) (ha : s.isCrashed a = false) (ht : (s.node a).nextTick = now) :
       Step c s now (s.commit a now (onTick c a now shuf (s.node a)) s.soup)
   | msg (m : Msg) (hm : m ∈ s.soup) (hc : s.isCrashed m.dst = false) :
       Step c s now (s.commit m.dst now (handleMsg c m.dst now m (s.node m.dst)) (s.soup.erase m))
@@ -34,7 +34,9 @@ theorem step_rel (c : Cfg) (s : Sys D) (act : Act) : Step c s act.time (step c s
     · rename_i h
       have ha : s.isCrashed a = false := by
         cases hc : s.isCrashed a <;> simp_all
-      exact Step.tick a shuf ha
+      have ht : (s.node a).nextTick = now := by
+        cases hc : s.isCrashed a <;> simp_all
+      exact Step.tick a shuf ha ht
   | deliver id now =>
     simp only [step, Act.time]
     split
